@@ -224,6 +224,25 @@ end arith
 
 /-! ### constructor checks -/
 
+/-- the constructor's rejections; every one of them is a `ValueError` in the code -/
+inductive CtorErr where
+  | reward (s : Nat)   -- 'for every state the reward must be finite for some action: violated for state s'
+  | action (s : Nat)   -- 'for every state at least one action must be available: violated for state s'
+  | beta               -- 'beta must be in [0, 1]'
+  | shape              -- 'shapes of R and Q must be either (n, m) and (n, m, n), or (L,) and (L, n)'
+  | length             -- 'length of s_indices and a_indices must be equal to the number of state-action pairs'
+  | coo                -- SciPy's COO constructor: 'axis 0 index … exceeds matrix dimension …'
+deriving Repr, DecidableEq
+
+instance : ToString CtorErr where
+  toString
+    | .reward s => s!"ValueError:reward:{s}"
+    | .action s => s!"ValueError:action:{s}"
+    | .beta => "ValueError:beta"
+    | .shape => "ValueError:shape"
+    | .length => "ValueError:length"
+    | .coo => "ValueError:coo"
+
 section ctor
 variable {α : Type}
 
@@ -233,47 +252,52 @@ def firstIdx (n : Nat) (p : Nat → Bool) : Option Nat := (List.range n).find? p
 /-- `_check_action_feasibility` in SA-pair form. `R_max = s_wise_max(R)` is
     written only for states with at least one pair. -/
 def checkFeasibleSa [LT α] [DecidableLT α] (n : Nat) (R : List (Ext α)) (aInd aIndptr : List Nat) :
-    Except String Unit :=
+    Except CtorErr Unit :=
   let rmax := sWiseMaxArgmax aInd aIndptr R n
   match firstIdx n (fun i => match rmax.getD i none with
                              | some (x, _) => x.isNinf
                              | none => false) with
-  | some s => .error s!"ValueError:reward:{s}"
+  | some s => .error (.reward s)
   | none =>
     match firstIdx n (fun i => aIndptr.getD (i + 1) 0 - aIndptr.getD i 0 == 0) with
-    | some s => .error s!"ValueError:action:{s}"
+    | some s => .error (.action s)
     | none => .ok ()
 
 /-- `_check_action_feasibility` in product form: `R.max(axis=1) == -inf` -/
-def checkFeasibleProd (R : List (List (Ext α))) : Except String Unit :=
+def checkFeasibleProd (R : List (List (Ext α))) : Except CtorErr Unit :=
   match firstIdx R.length (fun i => (R.getD i []).all Ext.isNinf) with
-  | some s => .error s!"ValueError:reward:{s}"
+  | some s => .error (.reward s)
   | none => .ok ()
 
 variable [Zero α] [One α] [LT α] [LE α] [DecidableLT α] [DecidableLE α]
 
-def checkBeta (beta : α) : Except String Unit :=
-  if 0 ≤ beta ∧ beta ≤ 1 then .ok () else .error "ValueError:beta"
+def checkBeta (beta : α) : Except CtorErr Unit :=
+  if 0 ≤ beta ∧ beta ≤ 1 then .ok () else .error .beta
+
+/-- the arrays the constructor stores (lines 345-367): kept as they are when the pairs are in
+    lexicographic order, otherwise re-sorted through the COO → CSR conversion -/
+def arrangeSa (n : Nat) (beta : α) (R : List (Ext α)) (Q : List (List α)) (sInd aInd : List Nat) :
+    SaDDP α :=
+  if hasSortedSa sInd aInd then
+    { n := n, beta := beta, R := R, Q := Q, sInd := sInd, aInd := aInd,
+      aIndptr := generateAIndptr n sInd }
+  else
+    let perm := resortPairs sInd aInd
+    let indptr := countsIndptr n sInd
+    { n := n, beta := beta, R := gather R perm Ext.ninf, Q := gather Q perm [],
+      sInd := rebuildS n indptr, aInd := gather aInd perm 0, aIndptr := indptr }
 
 /-- `DiscreteDP(R, Q, beta, s_indices, a_indices)` with 2-dimensional `Q` (`n` = `Q.shape[1]`) -/
 def mkSa (n : Nat) (beta : α) (R : List (Ext α)) (Q : List (List α)) (sInd aInd : List Nat) :
-    Except String (SaDDP α) :=
+    Except CtorErr (SaDDP α) :=
   let L := Q.length
-  if R.length ≠ L then .error "ValueError:shape"
-  else if ¬ (sInd.length = L ∧ aInd.length = L) then .error "ValueError:length"
+  if R.length ≠ L then .error .shape
+  else if ¬ (sInd.length = L ∧ aInd.length = L) then .error .length
   else if ¬ hasSortedSa sInd aInd ∧ sInd.any (fun s => decide (n ≤ s)) then
     -- `sp.coo_matrix(..., shape=(n, max a + 1))` refuses a row index `≥ n`
-    .error "ValueError:coo"
+    .error .coo
   else
-    let d : SaDDP α :=
-      if hasSortedSa sInd aInd then
-        { n := n, beta := beta, R := R, Q := Q, sInd := sInd, aInd := aInd,
-          aIndptr := generateAIndptr n sInd }
-      else
-        let perm := resortPairs sInd aInd
-        let indptr := countsIndptr n sInd
-        { n := n, beta := beta, R := gather R perm Ext.ninf, Q := gather Q perm [],
-          sInd := rebuildS n indptr, aInd := gather aInd perm 0, aIndptr := indptr }
+    let d := arrangeSa n beta R Q sInd aInd
     match checkFeasibleSa n d.R d.aInd d.aIndptr with
     | .error e => .error e
     | .ok _ =>
@@ -283,11 +307,11 @@ def mkSa (n : Nat) (beta : α) (R : List (Ext α)) (Q : List (List α)) (sInd aI
 
 /-- `DiscreteDP(R, Q, beta)` with 3-dimensional `Q` -/
 def mkProd (beta : α) (R : List (List (Ext α))) (Q : List (List (List α))) :
-    Except String (ProdDDP α) :=
+    Except CtorErr (ProdDDP α) :=
   let n := R.length
   let m := (R.headD []).length
   if ¬ (R.all (·.length == m) ∧ Q.length = n ∧ Q.all (fun qs => qs.length == m && qs.all (·.length == n)))
-  then .error "ValueError:shape"
+  then .error .shape
   else
     match checkFeasibleProd R with
     | .error e => .error e
@@ -309,7 +333,7 @@ def feasiblePairs (R : List (List (Ext α))) (Q : List (List (List α))) :
       | .fin r => some (s, a, r, (Q.getD s []).getD a [])
 
 /-- `to_sa_pair_form()` of a product-form instance -/
-def toSaPair (d : ProdDDP α) : Except String (SaDDP α) :=
+def toSaPair (d : ProdDDP α) : Except CtorErr (SaDDP α) :=
   let ps := feasiblePairs d.R d.Q
   mkSa d.n d.beta (ps.map fun p => Ext.fin p.2.2.1) (ps.map fun p => p.2.2.2)
     (ps.map fun p => p.1) (ps.map fun p => p.2.1)
@@ -321,7 +345,7 @@ def lookupPair (sInd aInd : List Nat) (s a : Nat) : Option Nat :=
     (fun out i => if sInd[i]? = some s ∧ aInd[i]? = some a then some i else out) none
 
 /-- `to_product_form()` of an SA-pair instance -/
-def toProduct (d : SaDDP α) : Except String (ProdDDP α) :=
+def toProduct (d : SaDDP α) : Except CtorErr (ProdDDP α) :=
   let na := d.aInd.foldl max 0 + 1
   let R := (List.range d.n).map fun s => (List.range na).map fun a =>
     match lookupPair d.sInd d.aInd s a with
@@ -517,7 +541,7 @@ def showProd (d : ProdDDP Rat) : String :=
 def errKind (e : String) : String := "ERR:" ++ e
 
 /-- parse the instance described on the line and run the model constructor -/
-def parseDDP (r : List String) : Option (Except String (DDP Rat)) :=
+def parseDDP (r : List String) : Option (Except CtorErr (DDP Rat)) :=
   match kv r "form", kvRat r "beta" with
   | some "prod", some beta =>
     match kvNat r "n", kvNat r "m", kvExts r "R", kvRatMat r "Q" with
@@ -532,9 +556,9 @@ def parseDDP (r : List String) : Option (Except String (DDP Rat)) :=
     | _, _, _, _, _ => none
   | _, _ => none
 
-def showExcept {β : Type} (f : β → String) : Except String β → String
+def showExcept {ε β : Type} [ToString ε] (f : β → String) : Except ε β → String
   | .ok x => f x
-  | .error e => errKind e
+  | .error e => errKind (toString e)
 
 def rqShow (rq : Option (List (Ext Rat) × List (List Rat))) : String :=
   match rq with
@@ -604,13 +628,13 @@ def runOp (op : String) (r : List String) (d : DDP Rat) : String :=
     match d with
     | .prod d => match toSaPair d with
                  | .ok e => showExcept showProd (toProduct e)
-                 | .error e => errKind e
+                 | .error e => errKind (toString e)
     | .sa _ => "bad-op"
   | "toprod_tosa" =>
     match d with
     | .sa d => match toProduct d with
                | .ok e => showExcept showSa (toSaPair e)
-               | .error e => errKind e
+               | .error e => errKind (toString e)
     | .prod _ => "bad-op"
   | _ => "bad-op"
 
@@ -633,7 +657,7 @@ def handle (toks : List String) : String :=
   | op :: r =>
     match parseDDP r with
     | none => "bad-op"
-    | some (.error e) => errKind e
+    | some (.error e) => errKind (toString e)
     | some (.ok d) => runOp op r d
   | _ => "bad-op"
 
